@@ -56,6 +56,13 @@ def gen_case(rng, n_ops=30, n_filters=60, depth=3):
     cap = rng.choice([3, 4, 6, 50])
     metric = rng.choice(["l2", "cos", "ip"])
     pool = rng.sample(VALUE_POOL, rng.choice([5, 8, 12]))
+    # strata that must meet each other inside one history: a NaN literal, an infinity, a signed zero, an ordinary
+    # number and a non-numeric string (index maintenance differs per class; transitions between classes under
+    # update/overwrite/delete are where stale index entries come from)
+    for stratum, p in ((["NaN", "nan"], 0.6), (["inf", "-inf", "infinity"], 0.4), (["0", "-0", "+0", "0.0"], 0.4),
+                       (["1", "2", "10", "9", "1.5"], 0.9), (["x", "abc", "b", ""], 0.9)):
+        if rng.random() < p and not any(v in pool for v in stratum):
+            pool.append(rng.choice(stratum))
     ids = list(range(1, rng.choice([3, 5, 7]) + 1))
     ops = ["cfg dim=%d cap=%d metric=%s" % (dim, cap, metric)]
 
